@@ -231,6 +231,7 @@ ROUND5 = {
 }
 
 ROUND6 = {
+    'C01': 'Sixth round: W2 has its own thermal diffusivity (per-process copies of a world constant).',
     'C10': 'Sixth round: velocity kind in suite noop (one section carries uniform raw, the others add the zero vector).',
 }
 
